@@ -1036,7 +1036,8 @@ class Baton:
     def __init__(self, runner, names, switches):
         self.runner = runner
         self.names = list(names)
-        self.switches = list(switches)
+        self.switches = [x for x in switches if not isinstance(x, list)]
+        self.aims = [[x[0], x[1], x[2], 0] for x in switches if isinstance(x, list)]
         self.events = {n: threading.Event() for n in names}
         self.finished = set()
         self.count = 0
@@ -1058,20 +1059,37 @@ class Baton:
                 return n
         return None
 
-    def maybe_switch(self, tracer):
-        if not self.switches:
+    def maybe_switch(self, tracer, frame=None):
+        if not self.switches and not self.aims:
             return
+        hit = False
+        if self.aims and frame is not None:
+            # aimed switch points are watchpoints, all armed at once: the n-th line the running thread executes inside the named function
+            name, fn = frame.f_code.co_name, frame.f_code.co_filename
+            for a in self.aims:
+                if a[1] == name and fn.endswith(a[0]):
+                    a[3] += 1
+                    if a[3] >= int(a[2]):
+                        self.aims.remove(a)
+                        self.runner.probe("aimed_switch_hit")
+                        hit = True
+                        break
         self.count += 1
-        if self.count < self.switches[0]:
-            return
+        if not hit:
+            if not self.switches or self.count < self.switches[0]:
+                return
+            self.switches.pop(0)
         me = tracer.me
-        self.switches.pop(0)
         n = self.count
         self.count = 0
         o = self.other(me)
         if o is None:
             return
         self.n_switches += 1
+        if frame is not None:
+            site = f"{frame.f_code.co_filename[len(REPO_CIJ):]}:{frame.f_code.co_name}"
+            ss = self.runner.stats.setdefault("switch_sites", {})
+            ss[site] = ss.get(site, 0) + 1
         self.runner.seams.log("switch", me, o, n)
         self.current = o
         self.events[o].set()
@@ -1133,5 +1151,5 @@ class LineTracer:
                 raise S.SimCancelled()
             raise MemoryError("injected allocation failure")
         if self.baton is not None:
-            self.baton.maybe_switch(self)
+            self.baton.maybe_switch(self, frame)
         return self.local_trace
